@@ -415,3 +415,13 @@ ADDENDA_R8 = {
     "C20": ("R20.11", "merge_from's local table is asked with the name it is keyed by (a merged-away type cannot be found by its own name)", "key-accessor agreement"),
     "C15": ("R15.14 (guard-object form), R15.24", "the recursion guard of the class-trait predicates may be a scoped guard object over a function-static set, whose class is itself judged (registers, answers, unregisters); the class hierarchy is acyclic by construction: only frozen writers touch _derivation, every base comes from a class_derivation_name action, and those assign a looked-up type only where the cycle predicate answered false (found F-C15u)", "who-may-write table, gated reachability in the generated parser's action cases (bison's case numbering), structural obligations on the predicate"),
 }
+
+
+# Triage of the round-8 side observations (DESIGN.md section 9, round 8).
+ADDENDA_R8T = {
+    "C04": ("R04.13", "the access a member class was declared with travels to its out-of-line definition (found F-C04d)", "assignment provenance in two cooperating functions"),
+    "C12": ("R12.11", "a count read from the stream is used only after the stream was tested (found F-C12c)", "must-pass-through of a fail() test between extraction and use"),
+    "C15": ("R15.25-R15.27", "lookup results and base-class struct types are nullable, also through a callee that dereferences its parameter (found F-C15v, w, y); a loop bounded by one container subscripts another only with a stated size relation (found F-C15x); CPPInstance::substitute_decl registers itself before descending (found F-C15z)", "nullable-result rule with callee summaries; size-relation evidence; must-pass-through"),
+    "C17": ("corrected reference of R17.1", "the <> form walks the -S directories itself, as given only for non-local names; nothing is left to DSearchPath (found F-C17c - the old reference had accepted the defective form)", "probe-sequence table"),
+    "C20": ("R20.12", "a string is built from a module definition's `const char *` field only behind a test of the same field (found F-C20d)", "same-expression null test"),
+}
